@@ -350,10 +350,12 @@ def get_edges(blocks, first_edge=0, polarity=0, analyse=False):
                     for d in b_timings[b]:
                         tstates += d
                         edges.append(tstates)
-                bt = b_timings[data[-1]]
-                for d in bt[:(len(bt) * timings.used_bits) // 8]:
-                    tstates += d
-                    edges.append(tstates)
+                b = data[-1]
+                for j in range(timings.used_bits):
+                    for d in timings.one if b & 0x80 else timings.zero:
+                        tstates += d
+                        edges.append(tstates)
+                    b *= 2
 
             # Tail pulse
             if timings.tail:
@@ -917,7 +919,7 @@ def write_pzx(fname, blocks):
         for i, data in enumerate(blocks):
             if i:
                 f.write(b'PAUS\x04\x00\x00\x00\xe0\x67\x35\x00')
-            if data[0]:
+            if data and data[0]:
                 f.write(b'PULS\x08\x00\x00\x00\x97\x8c\x78\x08\x9b\x02\xdf\x02')
             else:
                 f.write(b'PULS\x08\x00\x00\x00\x7f\x9f\x78\x08\x9b\x02\xdf\x02')
